@@ -313,6 +313,16 @@ func (c *oCache) TryRemove(id string) (ok bool, err error) {
 
 	c.mu.Unlock()
 
+	// an entry whose load is still in flight has no value yet: it is busy
+	select {
+	case <-e.load:
+	default:
+		return false, nil
+	}
+	if e.loadErr != nil {
+		return false, e.loadErr
+	}
+
 	prevState, _, _ := e.setClosing(context.Background(), false)
 	if prevState == entryStateClosing || prevState == entryStateClosed {
 		return false, nil
